@@ -2273,6 +2273,13 @@ class KmipEngine(object):
         # objects in payload.
         self._logger.info("Processing operation: Locate")
 
+        for field, number in (("Maximum Items", payload.maximum_items),
+                              ("Offset Items", payload.offset_items)):
+            if number is not None and number < 0:
+                raise exceptions.InvalidField(
+                    "The {} field must not be negative.".format(field)
+                )
+
         managed_objects = self._list_objects_with_access_controls(
                                 enums.Operation.LOCATE)
 
